@@ -23,7 +23,7 @@ def results():
     if not os.path.exists(p):
         return res
     for l in open(p):
-        m = re.match(r"(CAUGHT|MISSED\S*) (\S+?):? ?(.*)$", l.strip())
+        m = re.match(r"(CAUGHT|MISSED\S*) (\S+?\.diff):? ?(.*)$", l.strip())
         if not m:
             continue
         res[m.group(2).rstrip(":")] = (m.group(1), m.group(3))
